@@ -6,6 +6,7 @@ const G = require('../lib/gen_hostile')
 const { plan: structPlan, jobs: structJobs } = require('../lib/structwork')
 const { rewriteJobs, kind } = require('../lib/pipeline')
 const { compile } = require('../lib/world')
+const { withEol, EOLS } = require('../lib/execwork')
 const { SETS } = require('../lib/cfgset')
 const { Rng, hashStr, clip } = require('../lib/util')
 
@@ -86,7 +87,7 @@ async function check (job, resp, reparse) {
 module.exports = {
   id: 'C08',
   level: 'exploration',
-  rule: 'for every accepted, modified input that V8 itself compiles (as script, else as module), the content must compile in V8 as the same kind (compile only, never run), parse with acorn under the same source type, be accepted by the rewriter\'s own parser when fed back (a refused name collision is the expected answer for its own temporaries), and end with the trailer line. Workload: corpus, catalogue, random programs, 36 ASI/syntax-hazard programs x all configurations (comments on/off), and token-mutated programs that V8 still accepts. distinct_nontrivial = distinct (input, config) outputs checked by all three parsers.',
+  rule: 'for every accepted, modified input that V8 itself compiles (as script, else as module), the content must compile in V8 as the same kind (compile only, never run), parse with acorn under the same source type, be accepted by the rewriter\'s own parser when fed back (a refused name collision is the expected answer for its own temporaries), and end with the trailer line. Workload: corpus, catalogue, random programs, 41 ASI/syntax-hazard programs x {LF, CRLF, CR line endings} x all configurations (comments on/off), the syntax zoo under the three line-ending styles (string line continuations, raw line breaks in templates/comments), a CRLF slice of the corpus, and token-mutated programs that V8 still accepts. distinct_nontrivial = distinct (input, config) outputs checked by all three parsers.',
   assumptions: ['V8 of node 20 and acorn 8.16 decide validity; inputs V8 rejects are skipped and counted', 'feeding an output back uses a different prefix so that the collision refusal does not hide a syntax error'],
   plan (ctx) {
     const shards = [{ kind: 'asi' }]
@@ -100,7 +101,7 @@ module.exports = {
     let js
     if (spec.kind === 'asi') {
       js = []
-      ASI.forEach((code, i) => { for (const [cn, c] of Object.entries(SETS)) js.push({ code, meta: { asi: i, sigBase: 'asi:' + i, module: /^(import|export)\b/m.test(code) }, config: c, cfgKey: cn, cfgName: cn }) })
+      ASI.forEach((code, i) => { for (const eol of EOLS) for (const [cn, c] of Object.entries(SETS)) js.push({ code: withEol(code, eol), meta: { asi: i + (eol === 'lf' ? '' : ':' + eol), sigBase: 'asi:' + i, module: /^(import|export)\b/m.test(code) }, config: c, cfgKey: cn, cfgName: cn }) })
     } else if (spec.kind === 'mutated') {
       const rng = new Rng(ctx.seed, 'c08mut', spec.stream)
       const base = structJobs({ kind: 'random', count: 40, stream: 500 + spec.stream, cfgNames: Object.keys(SETS) }, ctx)
